@@ -148,25 +148,92 @@ pub fn delivery(rng: &mut Rng, n: usize, lost: &[usize], ncoded: usize, o: &mut 
     seq
 }
 
-/// bring the ring to a random position: a few tiny completed / cancelled updates before the scenario proper
+/// bring the ring to a random position: a few tiny completed / cancelled updates before the scenario proper; completed
+/// images are (mostly) taken through the bootloader copy and the first-boot acknowledgement, so that confirmed images
+/// are skipped by later allocations and wrapped pairs (firmware in the last slot, parity in slot 0) occur.
+/// Generated by executing the lines (the slot a completed image landed in is read from the answer of `check`).
 pub fn preamble(rng: &mut Rng, g: &Geo) -> Vec<String> {
     let mut q = vec![];
+    let mut ex = Exec::new();
+    let mut dummy = Out::new();
+    let mut push = |q: &mut Vec<String>, ex: &mut Exec, l: String, keep: bool| -> String {
+        let a = guarded(|| ex.line(&l, &mut dummy)).unwrap_or_else(|_| "HARNESS-PANIC".into());
+        if keep {
+            q.push(l);
+        }
+        a
+    };
+    push(&mut q, &mut ex, format!("new dev {} {} {}", g.nslots, g.slot, g.block), false);
     let k = rng.below(2 * g.nslots as u64) as usize;
     for _ in 0..k {
         let img = Img::make(rng, 4, 18);
-        q.push(format!("start {} {}", img.sz, img.n));
+        push(&mut q, &mut ex, format!("start {} {}", img.sz, img.n), true);
         match rng.below(3) {
-            0 => q.push("cancel".into()),
+            0 => {
+                push(&mut q, &mut ex, "cancel".into(), true);
+            }
             _ => {
-                q.extend(img.lines());
-                for i in 1..=img.n as u32 {
-                    q.push(format!("seg {} {}", i, hex(&img.fragment(i))));
+                for l in img.lines() {
+                    push(&mut q, &mut ex, l, true);
                 }
-                q.push("check".into());
+                for i in 1..=img.n as u32 {
+                    push(&mut q, &mut ex, format!("seg {} {}", i, hex(&img.fragment(i))), true);
+                }
+                let a = push(&mut q, &mut ex, "check".into(), true);
+                let slot = a.strip_prefix("res=Ok(").and_then(|r| r.split(')').next()).and_then(|v| v.parse::<usize>().ok());
+                if let Some(sl) = slot {
+                    match rng.below(6) {
+                        0 | 1 => {} // left awaiting the bootloader copy
+                        2 => {
+                            push(&mut q, &mut ex, format!("mark {} int", sl), true);
+                            push(&mut q, &mut ex, format!("mark {} bad", sl), true);
+                        }
+                        _ => {
+                            push(&mut q, &mut ex, format!("mark {} int", sl), true);
+                            push(&mut q, &mut ex, format!("mark {} ok", sl), true);
+                        }
+                    }
+                }
             }
         }
     }
     q
+}
+
+/// a script with a fixed geometry, image size and loss set
+pub fn directed_script(rng: &mut Rng, geo: Geo, sz: usize, n: usize, lost: &[usize], ncoded: usize, pre: Vec<String>) -> Script {
+    let img = Img::make(rng, sz, n);
+    let mut ops = vec![format!("start {} {}", sz, n)];
+    for i in 1..=n as u32 {
+        if !lost.contains(&(i as usize - 1)) {
+            ops.push(format!("seg {} {}", i, hex(&img.fragment(i))));
+        }
+    }
+    for k in 1..=ncoded as u32 {
+        ops.push(format!("seg {} {}", n as u32 + k, hex(&img.fragment(n as u32 + k))));
+    }
+    for i in lost {
+        ops.push(format!("seg {} {}", i + 1, hex(&img.fragment(*i as u32 + 1))));
+    }
+    ops.push("check".into());
+    Script { geo, pre, img, ops }
+}
+
+/// (slot size, fragment size) pairs whose parity region is filled exactly: capacity * size + row offset == room
+pub fn exact_fit_geometries() -> Vec<(usize, usize)> {
+    let mut v = vec![];
+    for slot in [20480usize, 24576, 32768, 65536] {
+        let room = slot - 0x4400;
+        for sz in 1..=256usize {
+            let l = capacity(slot, sz);
+            let c = l / 8;
+            let p = l % 8;
+            if l > 0 && l < 2047 && c * (c + 1) * 4 + p * (c + 1) + l * sz == room {
+                v.push((slot, sz));
+            }
+        }
+    }
+    v
 }
 
 /// G1: complete sessions (C01 C08 and the session part of C15)
@@ -264,6 +331,46 @@ pub fn gen_sessions(seed: u64, thorough: bool, o: &mut Out) -> Vec<String> {
             }
         }
         for k in 1..=(lost.len() as u32 + 6) {
+            q.push(format!("seg {} {}", n as u32 + k, hex(&img.fragment(n as u32 + k))));
+        }
+        q.push("check".into());
+        q.push("dump".into());
+    }
+    // (c) a coded fragment refused while more fragments are missing than the capacity, then exactly enough data to come
+    // back within the capacity, then only coded fragments: must complete at full rank (nothing "sticks" from the refusal)
+    for it in 0..(if thorough { 24 } else { 6 }) {
+        let block = 256usize;
+        let slot = (17408 / block + 1 + (it % 3)) * block;
+        let sz = *rng.pick(&[1usize, 2, 4]);
+        let cap = capacity(slot, sz);
+        let room = slot - 0x4400;
+        let n = (room / sz).min(cap + 40);
+        if cap == 0 || n < cap + 4 {
+            continue;
+        }
+        let img = Img::make(&mut rng, sz, n);
+        let over = 1 + (it / 3) % 3;
+        let mut idx: Vec<usize> = (0..n).collect();
+        rng.shuffle(&mut idx);
+        let lost: Vec<usize> = idx[..cap + over].to_vec();
+        o.stat("refused-then-within-capacity");
+        q.push(format!("new dev 4 {} {}", slot, block));
+        q.extend(img.lines());
+        q.push(format!("start {} {}", sz, n));
+        for i in 1..=n as u32 {
+            if !lost.contains(&(i as usize - 1)) {
+                q.push(format!("seg {} {}", i, hex(&img.fragment(i))));
+            }
+        }
+        // refused
+        for k in 1..=(1 + it as u32 % 2) {
+            q.push(format!("seg {} {}", n as u32 + k, hex(&img.fragment(n as u32 + k))));
+        }
+        // exactly enough data to be within the capacity (it % 2: one more than needed)
+        for i in &lost[..over + (it / 2) % 2] {
+            q.push(format!("seg {} {}", i + 1, hex(&img.fragment(*i as u32 + 1))));
+        }
+        for k in 3..=(cap as u32 + 14) {
             q.push(format!("seg {} {}", n as u32 + k, hex(&img.fragment(n as u32 + k))));
         }
         q.push("check".into());
@@ -436,6 +543,82 @@ pub fn gen_reboot(seed: u64, thorough: bool, o: &mut Out) -> Vec<String> {
                         q.push("reboot".into());
                         q.push("recover".into());
                     }
+                }
+                q.push(op.clone());
+            }
+            q.push("dump".into());
+            o.stat("reboot-positions");
+        }
+    }
+    // ---- directed scripts
+    let mut directed: Vec<(Script, &str)> = vec![];
+    // (a) wrapped pair: firmware in the last slot, parity in slot 0 (or the reverse)
+    // (with 4 slots pairs always start at an even slot; with 6 a wrapped pair needs a confirmed image in the way)
+    for nsl in [5usize, 6] {
+        for _ in 0..(if thorough { 3 } else { 1 }) {
+            for _try in 0..(if nsl == 5 { 80 } else { 120 }) {
+                let mut s = small_script(&mut rng, &mut Out::new(), false);
+                if capacity(s.geo.slot, s.img.sz) == 0 {
+                    continue;
+                }
+                s.geo.nslots = nsl;
+                s.pre = preamble(&mut rng, &s.geo);
+                let mut probe = s.head();
+                probe.push(s.ops[0].clone());
+                let a = reference(&probe).pop().unwrap_or_default();
+                let get = |k: &str| a.split(" ; ").find_map(|p| p.strip_prefix(k)).and_then(|v| v.parse::<usize>().ok());
+                if let (Some(fw), Some(par)) = (get("fw="), get("par=")) {
+                    if fw.max(par) == nsl - 1 && fw.min(par) == 0 {
+                        directed.push((s, "reboot-wrapped-pair"));
+                        break;
+                    }
+                }
+            }
+        }
+    }
+    // (b) more than 256 fragments with one whole aligned page of 256 status entries still blank and later entries set
+    for page in 0..2usize {
+        let geo = Geo { nslots: 4, slot: 20480, block: 4096 };
+        let n = 700;
+        let lost: Vec<usize> = (page * 256..page * 256 + 256).collect();
+        directed.push((directed_script(&mut rng, geo, 4, n, &lost, 2, vec![]), "reboot-blank-status-page"));
+    }
+    // (c) geometries whose parity region is filled exactly
+    let fits = exact_fit_geometries();
+    for j in 0..(if thorough { fits.len() } else { fits.len().min(3) }) {
+        let (slot, sz) = fits[(j * 7 + seed as usize) % fits.len()];
+        let geo = Geo { nslots: *rng.pick(&[4usize, 5, 6]), slot, block: 4096 };
+        let n = rng.range(6, 14) as usize;
+        let mut idx: Vec<usize> = (0..n).collect();
+        rng.shuffle(&mut idx);
+        let lost = idx[..2].to_vec();
+        directed.push((directed_script(&mut rng, geo, sz, n, &lost, 3, vec![]), "reboot-exact-fit-geometry"));
+    }
+    for (s, class) in directed {
+        o.stat(class);
+        q.extend(s.head());
+        q.push("base begin".into());
+        q.extend(s.ops.clone());
+        q.push("base end".into());
+        q.push("dump".into());
+        let nops = s.ops.len();
+        let mut positions: Vec<usize> = vec![1, nops / 3, nops / 2, nops - 2, nops - 1];
+        if class == "reboot-blank-status-page" {
+            // after the stored fragments (n - 256 of them), before and after the coded ones
+            positions = vec![1 + (s.img.n - 256), 1 + (s.img.n - 256) + 2, nops - 1];
+        }
+        positions.sort();
+        positions.dedup();
+        for p in positions {
+            if p == 0 || p >= nops {
+                continue;
+            }
+            q.extend(s.head());
+            q.push("variant C07 reboot".into());
+            for (j, op) in s.ops.iter().enumerate() {
+                if j == p {
+                    q.push("reboot".into());
+                    q.push("recover".into());
                 }
                 q.push(op.clone());
             }
@@ -708,6 +891,37 @@ pub fn gen_malformed(seed: u64, thorough: bool, o: &mut Out) -> Vec<String> {
                 o.stat("crafted-oversize-parity-rows");
             }
         }
+    }
+    // directed: a structurally valid in-progress pair whose status table and matrix diagonal disagree: more "received"
+    // fragments plus "used" rows than the image has fragments (the progress counters must stay within 0..=n)
+    for it in 0..(if thorough { 40 } else { 8 }) {
+        let nslots = *rng.pick(&[4usize, 5, 6]);
+        let slot = 20480usize;
+        let segsz = *rng.pick(&[4usize, 8, 16]);
+        let maxl = capacity(slot, segsz);
+        let n = rng.range(6, 14) as u32;
+        let ndone = rng.range(n as u64 / 2, n as u64) as usize;
+        let nrows = rng.range((n as usize - ndone) as u64 + 1, n as u64) as usize;
+        let first = rng.below(nslots as u64 - 1) as usize;
+        q.push(format!("new dev {} {} 4096", nslots, slot));
+        let h = |k: u32, sq: u32, n: u32| -> String {
+            hex(&[k, sq, segsz as u32, n, 0xFFFF_FFFF, 0xFFFF_FFFF, 0xFFFF_FFFF].iter().flat_map(|x| x.to_le_bytes()).collect::<Vec<u8>>())
+        };
+        q.push(format!("poke {} {}", first * slot, h(0, 7, n)));
+        q.push(format!("poke {} {}", (first + 1) * slot, h(1, 8, maxl as u32)));
+        q.push(format!("poke {} {}", first * slot + 0x400, hex(&vec![0x33u8; ndone])));
+        let moff = (first + 1) * slot + 0x400 + maxl * segsz;
+        for i in 0..nrows.min(maxl) {
+            let (c, pp) = (i / 8, i % 8);
+            let roff = c * (c + 1) * 4 + pp * (c + 1);
+            q.push(format!("poke {} {:02x}", moff + roff + c, 0xFFu8 & !(1u8 << pp)));
+        }
+        q.push("recover".into());
+        q.push(format!("seg {} {}", n, hex(&vec![0u8; segsz])));
+        q.push(format!("seg {} {}", n + 1, hex(&vec![0u8; segsz])));
+        q.push("bl".into());
+        q.push("dump".into());
+        o.stat("crafted-inconsistent-progress");
     }
     // arbitrary flash contents: random / adversarial headers, status tables and data, then every query call
     let ncraft = if thorough { 3000 } else { 300 };
